@@ -39,3 +39,117 @@ Theorem C18_nopad_cannot_start :
     d < 2 ^ 248 -> node_peer_addr_nopad keccak pub compress decompress d = None.
 Proof. exact nopad_cannot_start. Qed.
 Print Assumptions C18_nopad_cannot_start.
+
+(* ---- composition with C04 (proofs/Compose_p2p.v) -----------------------------------------------------------
+   In model/Handshake.v the address of the authenticated transport identity is an oracle answer
+   (addr_of_pid).  Below it is GetEthAddressFromPeerID of model/Identity.v applied to the transport
+   identity of an honest node: private scalar d < 2^256, transport identity
+   host_id (pad32 (min_be d)) = peerid (compress (pub d)) (Compose_p2p.honest_pid), signing address
+   signing_addr d (Compose_p2p.honest_addr).  The curve operations are arbitrary functions subject to the
+   two premises of C18_coherent; keccak is arbitrary.
+   Non-vacuity: Compose_p2p.ex_honest_premises. *)
+From Coq Require Import ZArith.
+From MevVerif Require model.Handshake proofs.Compose_p2p.
+
+(* C18 o C04.  "An honest node always satisfies its peers' address-binding check": whenever the peer's
+   signature verifier recovered the node's signing address from the handshake request, the clause
+   "A is the address of the authenticated transport identity" of C04's admissibility predicate holds,
+   and the whole predicate [proves] holds unless the node claims the provider role without the registry
+   confirming its stake. *)
+Theorem C18_honest_node_passes_binding :
+  forall (keccak : bytes -> bytes) (pub : N -> point) (compress : point -> bytes)
+         (decompress : bytes -> option point),
+    (forall P, length (compress P) = 33%nat) ->
+    (forall d, decompress (compress (pub d)) = Some (pub d)) ->
+    forall d, d < 2 ^ 256 ->
+    host_id pub compress (pad32 (min_be d)) = Some (Compose_p2p.honest_pid pub compress d) /\
+    forall (o : Handshake.oracles),
+      Handshake.addr_of_pid o =
+        Compose_p2p.pres_of (addr_of_peerid keccak decompress (Compose_p2p.honest_pid pub compress d)) ->
+      forall role token sig,
+      Handshake.verify o sig (role ++ token) = Handshake.VOk true (signing_addr keccak pub d) ->
+      Handshake.addr_of_pid o = Handshake.POk (signing_addr keccak pub d) /\
+      ((role = Handshake.provider_string -> Handshake.registered o (signing_addr keccak pub d) = true) ->
+       Handshake.proves o role token sig (signing_addr keccak pub d)).
+Proof.
+  exact (fun keccak pub compress decompress H1 H2 d Hd =>
+    conj (Compose_p2p.honest_host_id pub compress d Hd)
+         (Compose_p2p.honest_node_passes_binding keccak pub compress decompress H1 H2 d Hd)).
+Qed.
+Print Assumptions C18_honest_node_passes_binding.
+
+(* C18 o C04.  Consequently such a peer never refuses the honest node for a bad signature, an address
+   mismatch or an unusable peer id -- whatever else the transcript contains and whichever writes fail;
+   a refusal for stake happens only to a node that claims the provider role and is not registered. *)
+Theorem C18_honest_never_refused_for_identity :
+  forall (keccak : bytes -> bytes) (pub : N -> point) (compress : point -> bytes)
+         (decompress : bytes -> option point),
+    (forall P, length (compress P) = 33%nat) ->
+    (forall d, decompress (compress (pub d)) = Some (pub d)) ->
+    forall d, d < 2 ^ 256 ->
+    forall (o : Handshake.oracles),
+      Handshake.addr_of_pid o =
+        Compose_p2p.pres_of (addr_of_peerid keccak decompress (Compose_p2p.honest_pid pub compress d)) ->
+      forall role token sig,
+      Handshake.verify o sig (role ++ token) = Handshake.VOk true (signing_addr keccak pub d) ->
+      forall cfg wfail f1 rest,
+      Handshake.as_req f1 = Some (role, token, sig) ->
+      forall cl, Handshake.res (Handshake.handle cfg o wfail (f1 :: rest)) = Handshake.Refuse cl ->
+        cl <> Handshake.RSig /\ cl <> Handshake.RAddr /\ cl <> Handshake.RPid /\
+        (cl = Handshake.RStake ->
+         role = Handshake.provider_string /\ Handshake.registered o (signing_addr keccak pub d) = false).
+Proof. exact Compose_p2p.honest_never_refused_for_identity. Qed.
+Print Assumptions C18_honest_never_refused_for_identity.
+
+(* C18 o C04 (C04_refusal_blocks).  ... and therefore never places a permanent block on it. *)
+Theorem C18_honest_never_blocked_for_ever :
+  forall (keccak : bytes -> bytes) (pub : N -> point) (compress : point -> bytes)
+         (decompress : bytes -> option point),
+    (forall P, length (compress P) = 33%nat) ->
+    (forall d, decompress (compress (pub d)) = Some (pub d)) ->
+    forall d, d < 2 ^ 256 ->
+    forall (o : Handshake.oracles),
+      Handshake.addr_of_pid o =
+        Compose_p2p.pres_of (addr_of_peerid keccak decompress (Compose_p2p.honest_pid pub compress d)) ->
+      forall role token sig,
+      Handshake.verify o sig (role ++ token) = Handshake.VOk true (signing_addr keccak pub d) ->
+      forall cfg wfail f1 rest has_notifier add,
+      Handshake.as_req f1 = Some (role, token, sig) ->
+      ~ In (Handshake.EBlock 0%Z) (Handshake.inbound cfg o wfail (f1 :: rest) has_notifier add).
+Proof. exact Compose_p2p.honest_never_blocked_for_ever. Qed.
+Print Assumptions C18_honest_never_blocked_for_ever.
+
+(* C18 o C04 (C04_exact_responder).  With the echo of the peer's own request in place and no failed write
+   the honest node is enrolled, under its signing address and the role it claimed. *)
+Theorem C18_honest_enrolled :
+  forall (keccak : bytes -> bytes) (pub : N -> point) (compress : point -> bytes)
+         (decompress : bytes -> option point),
+    (forall P, length (compress P) = 33%nat) ->
+    (forall d, decompress (compress (pub d)) = Some (pub d)) ->
+    forall d, d < 2 ^ 256 ->
+    forall (o : Handshake.oracles),
+      Handshake.addr_of_pid o =
+        Compose_p2p.pres_of (addr_of_peerid keccak decompress (Compose_p2p.honest_pid pub compress d)) ->
+      forall role token sig,
+      Handshake.verify o sig (role ++ token) = Handshake.VOk true (signing_addr keccak pub d) ->
+      forall cfg wfail f1 f2 rest ea er,
+      Handshake.as_req f1 = Some (role, token, sig) ->
+      (role = Handshake.provider_string -> Handshake.registered o (signing_addr keccak pub d) = true) ->
+      wfail 0%nat = false -> wfail 1%nat = false ->
+      Handshake.as_resp f2 = Some (ea, er) -> Handshake.echo_is_own cfg ea er ->
+      Handshake.res (Handshake.handle cfg o wfail (f1 :: f2 :: rest)) =
+        Handshake.Enrol (signing_addr keccak pub d) (Handshake.role_of_string role).
+Proof. exact Compose_p2p.honest_enrolled. Qed.
+Print Assumptions C18_honest_enrolled.
+
+(* C18 (used by C14_wf_from_handshake).  Two different peer ids with the same address under
+   GetEthAddressFromPeerID are two different compressed public keys whose points have the same
+   Keccak-derived address. *)
+Theorem C18_identity_collision_is_key_collision :
+  forall (keccak : bytes -> bytes) (decompress : bytes -> option point) p p' A,
+  p <> p' ->
+  addr_of_peerid keccak decompress p = Some A -> addr_of_peerid keccak decompress p' = Some A ->
+  exists c c' P P', c <> c' /\ decompress c = Some P /\ decompress c' = Some P' /\
+                    eth_addr keccak P = A /\ eth_addr keccak P' = A.
+Proof. exact Compose_p2p.identity_collision_is_key_collision. Qed.
+Print Assumptions C18_identity_collision_is_key_collision.
